@@ -162,6 +162,32 @@ theorem cfold_in (secs : List Sec) (vec : Bytes) (s : Sec) (hs : s ∈ secs)
         omega
     · exact ih _ hmem htail (by rw [cstep_size]; exact hdv)
 
+/-- a section whose destination range does not fit the vector is skipped: its range keeps the
+bytes of the initial vector (the other sections do not reach into it) -/
+theorem cfold_skip (secs : List Sec) (vec : Bytes) (s : Sec) (hs : s ∈ secs)
+    (hp : secs.Pairwise (fun a b => D a + DL a ≤ D b ∨ D b + DL b ≤ D a))
+    (hd : D s + DL s < 4294967296) (hbig : vec.size < D s + DL s)
+    (i : Nat) (hi : D s ≤ i ∧ i < D s + DL s) :
+    byteAt (cfold image D DL S SL secs vec) i = byteAt vec i := by
+  induction secs generalizing vec with
+  | nil => cases hs
+  | cons t rest ih =>
+    rw [cfold_cons]
+    obtain ⟨hhead, htail⟩ := List.pairwise_cons.1 hp
+    rcases List.mem_cons.1 hs with rfl | hmem
+    · have hstep : cstep image vec (D s) (DL s) (S s) (SL s) = vec := by
+        unfold cstep
+        dsimp only
+        have h1 : wadd32 (D s) (DL s) = D s + DL s := Nat.mod_eq_of_lt hd
+        rw [h1, if_neg (by omega)]
+      rw [hstep, cfold_out]
+      intro u hu
+      have := hhead u hu
+      omega
+    · rw [ih _ hmem htail (by rw [cstep_size]; exact hbig), cstep_out]
+      have := hhead s hmem
+      omega
+
 end fold
 
 theorem toView_fold (image : Bytes) (secs : List Sec) (vec : Bytes) :
@@ -269,5 +295,59 @@ theorem HdrAgree.fields {n : Nat} {a b : Bytes} (h : HdrAgree n a b)
     intro i hi
     have := List.mem_range.1 hi
     exact h.secAt _ (by omega)
+
+/-- A buffer whose first `n` bytes are those of an accepted image `b` and that is at least `n` long
+is accepted too, provided the NT headers, the declared data directories and the declared section
+table of `b` end below `n` (so that validation reads only agreeing bytes). -/
+theorem HdrAgree.accept {n : Nat} {a b : Bytes} (h : HdrAgree n a b) (f : Fmt) (basea baseb : Nat)
+    (hb : Accept f ⟨b, baseb⟩) (hbase : basea % 4 = 0) (hna : n ≤ a.size)
+    (hdd : ntEnd f b + 8 * numDataDirs f b ≤ n) (hst : secTable b + 40 * numberOfSections b ≤ n)
+    (hsoh : sizeOfHeaders b ≤ n) :
+    Accept f ⟨a, basea⟩ := by
+  have hf : 120 ≤ f.ntSize ∧ f.offNumRva + 28 = f.ntSize := by cases f <;> decide
+  unfold ntEnd numDataDirs at hdd
+  have e0 : eLfanew a = eLfanew b := h.le32 60 (by omega)
+  have e1 : numberOfSections a = numberOfSections b := by
+    unfold numberOfSections; rw [e0]; exact h.le16 _ (by omega)
+  have e2 : sizeOfOptionalHeader a = sizeOfOptionalHeader b := by
+    unfold sizeOfOptionalHeader; rw [e0]; exact h.le16 _ (by omega)
+  have e3 : optOff a = optOff b := by unfold optOff; rw [e0]
+  have e5 : sizeOfHeaders a = sizeOfHeaders b := by
+    unfold sizeOfHeaders; rw [e3]; unfold optOff; exact h.le32 _ (by omega)
+  have e6 : sizeOfImage a = sizeOfImage b := by
+    unfold sizeOfImage; rw [e3]; unfold optOff; exact h.le32 _ (by omega)
+  have e7 : optMagic a = optMagic b := by
+    unfold optMagic; rw [e3]; unfold optOff; exact h.le16 _ (by omega)
+  have e8 : numberOfRvaAndSizes f a = numberOfRvaAndSizes f b := by
+    unfold numberOfRvaAndSizes; rw [e3]; unfold optOff; exact h.le32 _ (by omega)
+  have e9 : Pelite.le16 a 0 = Pelite.le16 b 0 := h.le16 0 (by omega)
+  have e10 : Pelite.le32 a (eLfanew b) = Pelite.le32 b (eLfanew b) := h.le32 _ (by omega)
+  unfold secTable optOff at hst
+  unfold Accept at hb ⊢
+  dsimp only at hb ⊢
+  rw [e0, e1, e2, e5, e6, e7, e8, e9, e10]
+  obtain ⟨b1, b2, b3, b4, b5, b6, b7, b8, b9, b10, b11, b12, b13, b14⟩ := hb
+  refine ⟨by omega, hbase, b3, b4, b5, by omega, b7, b8, by omega, b10, by omega, b12, by omega, b14⟩
+
+/-! ### a minimal concrete PE32 file (non-vacuity examples, counterexample of the round trip) -/
+
+private def z (n : Nat) : Bytes := Array.replicate n 0
+
+/-- A 226-byte PE32 file: e_lfanew = 64, no data directories, one section, SizeOfHeaders = 224,
+SizeOfImage = `soi`; the section has VirtualAddress = 224, VirtualSize = `vs`,
+PointerToRawData = 224, SizeOfRawData = 2 (raw bytes `aa bb`).  (`vs`, `soi` < 256.) -/
+def tinyPe (vs soi : Nat) : Bytes :=
+  #[77, 90] ++ z 58 ++ #[64, 0, 0, 0] ++                              -- "MZ", e_lfanew
+  #[80, 69, 0, 0, 0, 0, 1, 0] ++ z 12 ++ #[96, 0, 0, 0] ++            -- "PE", NumberOfSections, SizeOfOptionalHeader
+  #[11, 1] ++ z 54 ++ #[soi.toUInt8, 0, 0, 0, 224, 0, 0, 0] ++ z 32 ++   -- magic, SizeOfImage, SizeOfHeaders, NumberOfRvaAndSizes = 0
+  z 8 ++ #[vs.toUInt8, 0, 0, 0, 224, 0, 0, 0, 2, 0, 0, 0, 224, 0, 0, 0] ++ z 16 ++   -- section header
+  #[170, 187]                                                          -- raw data
+
+def tinyView (vs soi : Nat) : View :=
+  ⟨⟨tinyPe vs soi, 0⟩, .pe32, .file, imageBaseField .pe32 (tinyPe vs soi)⟩
+
+theorem tinyView_ok (vs soi : Nat) (h : Accept .pe32 ⟨tinyPe vs soi, 0⟩) :
+    fromBytes .pe32 .file ⟨tinyPe vs soi, 0⟩ = .ok (tinyView vs soi) :=
+  (fromBytes_ok_iff _ _ _ _).2 ⟨h, by unfold tinyView; with_reducible rfl⟩
 
 end Pelite.Pe
